@@ -10,7 +10,8 @@
 EXTENDS Integers, Sequences, FiniteSets, TLC, Json
 
 CONSTANTS Ns,       \* numbers of stored curves to explore, e.g. 1..5
-          MaxQ      \* length of the query sequence
+          MaxQ,     \* length of the query sequence
+          Fixed     \* {"F28"} : the table always extrapolates (repaired); unrepaired it keeps the setting of the first query
 
 \* query classes relative to the stored heights
 Stored   == {"min", "max", "mid_stored"}              \* exactly a stored height (mid_stored needs >= 3 curves)
@@ -25,7 +26,7 @@ vars == <<n, cache, qs, outs>>
 
 Kind(k) == IF k >= 5 THEN "cubic" ELSE IF k >= 3 THEN "quadratic" ELSE IF k = 2 THEN "linear" ELSE "stored"
 InRangeByCode(q) == q \notin Far
-Fill(q) == IF InRangeByCode(q) THEN "plain" ELSE "extrap"
+Fill(q) == IF "F28" \in Fixed THEN "extrap" ELSE IF InRangeByCode(q) THEN "plain" ELSE "extrap"
 
 \* what one call returns, given the table that exists (or is built by this call)
 Outcome(k, q, c) ==
@@ -48,8 +49,10 @@ Spec == Init /\ [][Next]_vars
 StoredHeightReturnsStoredCurve == \A i \in 1..Len(qs) : qs[i] \in Stored \cup Snapped => outs[i] = "stored"
 \* C11 : queries inside the stored range do not depend on earlier queries
 InRangeIndependentOfHistory == \A i \in 1..Len(qs) : qs[i] \in Stored \cup Snapped \cup Inside => outs[i] \in {"stored", "interp"}
-\* documented (not a property): outside the stored range the answer depends on the FIRST query of the object's life
+\* unrepaired (F28): outside the stored range the answer depended on the FIRST query of the object's life
 OutsideDependsOnFirst == \A i \in 1..Len(qs) : (n > 1 /\ qs[i] \in Far \cup BelowTol) => (outs[i] = "extrap" <=> qs[1] \in Far)
+\* C13 / C11, repaired: a query outside the stored range extrapolates whatever was asked before
+OutsideIndependentOfHistory == \A i \in 1..Len(qs) : (n > 1 /\ qs[i] \in Far \cup BelowTol) => outs[i] = "extrap"
 
 Emit == Len(qs) = MaxQ => PrintT(ToJson([n |-> n, qs |-> qs, outs |-> outs, kind |-> Kind(n)]))
 =============================================================================
